@@ -130,3 +130,29 @@ def single_assign_env(fn, before=None):
                 if isinstance(e, ast.Name):
                     cnt[e.id] = cnt.get(e.id, 0) + 2
     return {k: v for k, v in val.items() if cnt.get(k) == 1}
+
+
+def reaching_env(fn, node):
+    """Like single_assign_env, but for names assigned several times use the last
+    assignment that precedes `node` in a block enclosing `node` (a definition that
+    dominates the use), provided no other assignment to the name lies in between."""
+    from .core import iter_own, parents
+    env = single_assign_env(fn)
+    anc = set(id(p) for p in parents(node))
+    anc.add(id(fn))
+    cands = {}
+    alld = {}
+    for s in iter_own(fn):
+        if isinstance(s, ast.Assign) and len(s.targets) == 1 and isinstance(s.targets[0], ast.Name):
+            nm = s.targets[0].id
+            alld.setdefault(nm, []).append(s)
+            if s.lineno < node.lineno and id(getattr(s, '_parent', None)) in anc:
+                cands.setdefault(nm, []).append(s)
+    for nm, lst in cands.items():
+        if nm in env:
+            continue
+        last = max(lst, key=lambda s: s.lineno)
+        between = [s for s in alld[nm] if last.lineno < s.lineno < node.lineno]
+        if not between:
+            env[nm] = last.value
+    return env
